@@ -52,12 +52,13 @@ Print Assumptions C40_stale_snapshot_implies_waker_readable.
 
 Theorem C40_stale_select_can_return : forall s r w, reachable s ->
   sp s = SSelecting r w -> args s = None -> (r, w) <> (readers s, writers s) -> pend s = false ->
-  exists rs ws s', step s (TSel, SelectRet rs ws []) = Some s'.
+  exists l s', step s (TSel, l) = Some s' /\
+    ((exists rs ws, l = SelectRet rs ws []) \/ l = SelectErr (* an fd of the snapshot was closed *)).
 Proof.
   intros s r w R E A N P.
   assert (F : in_flight s = Some (r, w)) by (unfold in_flight; rewrite A, E; reflexivity).
   destruct (stale_snapshot_wakes s r w R F N) as [M [W|W]]; [|congruence].
-  eapply select_can_return; eauto.
+  destruct (select_can_return s r w E M W) as (l & s' & H1 & _ & H3). eauto.
 Qed.
 Print Assumptions C40_stale_select_can_return.
 
@@ -127,10 +128,27 @@ Theorem C40_snapshot_is_current_at_handover : forall s s',
 Proof. exact snapshot_current. Qed.
 Print Assumptions C40_snapshot_is_current_at_handover.
 
+(* (5c) The EBADF/WSAENOTSOCK recovery path of _run_select.  User code closes an fd only
+   after unregistering it (CloseFd).  Registered sets never contain a closed fd; a snapshot
+   in flight that contains one implies a readable waker; hence whenever select fails the
+   waker poll succeeds: the selector never re-raises (never dies) and reports — an (empty)
+   _handle_select is posted, which re-arms the selector.  The bounded-dispatch theorem (5)
+   covers these steps: SelectErr / WakerPoll are internal steps of [quiet_step]. *)
+Theorem C40_select_error_recovers : forall s, reachable s -> sp s = SErr ->
+  0 < waker s /\ exists s', step s (TSel, WakerPoll true) = Some s' /\ sp s' = SGot [] [].
+Proof. exact select_error_recovers. Qed.
+Print Assumptions C40_select_error_recovers.
+
+Theorem C40_closed_fd_in_snapshot_implies_waker : forall s, reachable s ->
+  has_dead s (readers s, writers s) = false /\
+  (forall a, in_flight s = Some a -> has_dead s a = true -> 0 < waker s).
+Proof. exact closed_fd_in_snapshot. Qed.
+Print Assumptions C40_closed_fd_in_snapshot_implies_waker.
+
 (* (6) close(): past the join the selector thread has stopped (if it was ever
    started); while close() waits in join the event-loop thread has no other step,
    the selector thread always has one, every selector step strictly decreases a
-   rank bounded by 9 (under ANY continuation, once _closing_selector is set), and
+   rank bounded by 10 (under ANY continuation, once _closing_selector is set), and
    when the thread has stopped join returns. *)
 Theorem C40_close_returns_with_thread_stopped : forall s, reachable s ->
   (lp s = LCloseRm \/ lp s = LCloseFin \/ lp s = LClosed) -> spawned s = true -> sp s = SDone.
@@ -141,7 +159,7 @@ Theorem C40_close_join_terminates : forall s, reachable s -> lp s = LCloseJoin -
   (sp s <> SDone -> sp s <> SNotStarted ->
      (forall l, step s (TLoop, l) = None) /\ exists l s', step s (TSel, l) = Some s') /\
   (sp s = SDone -> exists s', step s (TLoop, Joined) = Some s') /\
-  (forall tr s', steps s tr = Some s' -> count_sel tr + sel_rank s' <= sel_rank s /\ count_sel tr <= 9).
+  (forall tr s', steps s tr = Some s' -> count_sel tr + sel_rank s' <= sel_rank s /\ count_sel tr <= 10).
 Proof.
   intros s R E. pose proof (reachable_inv s R) as I. repeat split.
   - intros l. apply (loop_blocked_in_join s l I E H H0).
@@ -155,13 +173,13 @@ Print Assumptions C40_close_join_terminates.
 (* (6b) close() ALWAYS returns: from any reachable state inside close() — wherever
    the selector thread is: parked on the condition, notified, holding the lock,
    before/inside/after select() — every continuation performs at most
-   [cdist s] <= 38 internal steps, stays inside close(), and until close() has
+   [cdist s] <= 40 internal steps, stays inside close(), and until close() has
    returned some internal step is enabled.  close()'s notify un-parks a selector
    that waits on the condition: no reachable state has _closing_selector set and
    the selector still parked. *)
 Theorem C40_close_always_returns : forall s, reachable s -> close_pc (lp s) = true ->
   forall tr s', steps s tr = Some s' ->
-    close_pc (lp s') = true /\ count_internal tr + cdist s' <= cdist s /\ count_internal tr <= 38 /\
+    close_pc (lp s') = true /\ count_internal tr + cdist s' <= cdist s /\ count_internal tr <= 40 /\
     (lp s' <> LClosed -> exists e, internal (snd e) = true /\ step s' e <> None).
 Proof.
   intros s R C tr s' H. pose proof (reachable_inv s R) as I.
